@@ -82,7 +82,7 @@ CHECKS = {
             "Every catalogue entry is compared with the published parameters/check value and, for 11+ data widths and "
             "seeded messages, with an independent bit-at-a-time register model; random parameter sets (incl. even "
             "polynomials, all reflection combinations, data width <,=,> crc width) extend this beyond the catalogue. The "
-            "hardware Processor (a quarter of the time an object that was already elaborated once) is simulated on generated schedules with idle gaps, restarts and start with/without valid, "
+            "hardware Processor (a quarter of the time an object that was already elaborated once) is simulated on generated schedules with idle gaps, restarts, domain resets and start with/without valid, "
             "and match_detected is checked positively (own CRC in transmission order) and negatively (all other trailers "
             "for crc_width<=8, sampled otherwise).",
             "Oracle: vchecks/c16.py williams_* (shares no code with amaranth.lib.crc); refdata/crc_catalog.json is a frozen "
@@ -103,7 +103,7 @@ CHECKS = {
             "Hypothesis-generated clock/input/reset event schedules (harness-owned clocks, coincident edges) judged by "
             "shift-register, release-counter and pulse-count monitors",
             "FFSynchronizer is compared with a `stages`-deep shift register preloaded with the initial value over all "
-            "widths/stage counts/edges/reset configurations, outputs of the same or a wider shape and objects elaborated once or twice; AsyncFFSynchronizer and ResetSynchronizer with a monitor that "
+            "widths/stage counts/edges/reset configurations (synchronous, asynchronous, none), outputs of the same or a wider shape and objects elaborated once or twice; AsyncFFSynchronizer and ResetSynchronizer with a monitor that "
             "demands assertion in the very event the input asserts and release after exactly `stages` active edges; "
             "PulseSynchronizer with pulse conservation (outputs == inputs after a drain, never ahead) over schedules that "
             "satisfy the stated precondition by construction, including coincident edges and a shared domain.",
